@@ -139,6 +139,11 @@ class Check:
         self._distinct = set()
         os.makedirs(SCRATCH, exist_ok=True)
         allf = json.load(open(os.path.join(VERIF, "known_findings.json")))
+        kd = os.path.join(VERIF, "known_findings.d")     # per-property fragments (same format)
+        if os.path.isdir(kd):
+            for fn in sorted(os.listdir(kd)):
+                if fn.endswith(".json"):
+                    allf += json.load(open(os.path.join(kd, fn)))
         self.findings = [f for f in allf if f["property"] == pid]
 
     # ----- Coq ---------------------------------------------------------------------------
